@@ -275,6 +275,9 @@ pub struct Style {
     /// refuses one of the two forms must not hide what it does with the other).
     #[serde(default)]
     pub unicode_before_comment: bool,
+    /// What the trailing comment of a data line says (see `render`).
+    #[serde(default)]
+    pub comment_style: u8,
 }
 
 fn sep_str(sep: u8, rng: &mut Rng) -> String {
@@ -364,7 +367,20 @@ pub fn render(table: &[Entry], style: &Style, rng: &mut Rng) -> String {
             } else {
                 l.push_str(&sep_str(style.sep, rng));
             }
-            l.push_str(&format!("# 1 {} {}", MONTH_ABBR[(m - 1) as usize], y));
+            // Comments are free text: what they say must not matter. By rank the comment names
+            // the day the offset takes effect (as IERS does), the day BEFORE (the tzdata convention:
+            // the day of the leap second itself), the same day in ISO form, or numbers.
+            match style.comment_style {
+                1 => {
+                    let (py, pm, pd) = crate::refdata::civil_from_days(
+                        (ts / 86_400) as i64 - 1 + crate::refdata::days_from_civil(1900, 1, 1),
+                    );
+                    l.push_str(&format!("# {} {} {}", pd, MONTH_ABBR[(pm - 1) as usize], py));
+                }
+                2 => l.push_str(&format!("# {y:04}-{m:02}-01T00:00:00Z")),
+                3 => l.push_str(&format!("# {} {} (was {})", ts + 86_400, dat as u32 + 1, dat as i32 - 1)),
+                _ => l.push_str(&format!("# 1 {} {}", MONTH_ABBR[(m - 1) as usize], y)),
+            }
         }
         if style.long_trailing_comment > 0 && i == long_trail_at {
             if !style.trailing_comment {
@@ -479,6 +495,7 @@ pub fn random_style(rng: &mut Rng) -> Style {
         hash_line_first: false,
         unicode_blanks: false,
         unicode_before_comment: false,
+        comment_style: 0,
     }
 }
 
@@ -765,6 +782,11 @@ pub fn build_pool(shipped_text: String, shipped_table: Vec<Entry>, n_rendered: u
         }
         if !(style.dollar_line && (style.at_line || style.stale_expiry) && (style.hash_line || style.hash_line_first)) {
             strict = false;
+        }
+        // by rank, not drawn (only matters where the image has trailing comments at all)
+        style.comment_style = ((i / 2) % 4) as u8;
+        if style.unicode_blanks {
+            style.comment_style = 0; // those images depend on the `# 1 Mon YYYY` form
         }
         let text = render(&table, &style, &mut r);
         let mut text = text;
